@@ -247,15 +247,17 @@ def r3(ctx):
 
 def r4(ctx):
     ct = ctx.fibody(name="process_cancel_timeout", self_adt=EM, trait="")
-    r = render(ct.return_term())
+    ev_norm = lambda body, t: common.resolve_event_ctor(ctx, body, t)   # noqa: E731  (`AccountEvent::new(e, p)` = the literal it builds)
+    r = render(ev_norm(ct, ct.return_term()))
     ctx.check("ExecutionManager::process_cancel_timeout",
               r == "Event::Item{0: AccountEvent::AccountEvent{exchange: order.key.exchange, kind: AccountEventKind::OrderCancelled{0: "
               "OrderEvent::OrderEvent{key: order.key, state: Result::Err{0: OrderError::Connectivity{0: ConnectivityError::Timeout{}}}}}}}",
               "a cancel timeout is reported against the request's own key and exchange as a Timeout failure", got=r, key="event")
     ot = ctx.fibody(name="process_open_timeout", self_adt=EM, trait="")
-    r = render(ot.return_term())
-    ev = common.agg_fields(ot.return_term(), "AccountEvent::AccountEvent")
-    of = common.agg_fields(ot.return_term(), "order::Order::Order")
+    ot_rt = ev_norm(ot, ot.return_term())
+    r = render(ot_rt)
+    ev = common.agg_fields(ot_rt, "AccountEvent::AccountEvent")
+    of = common.agg_fields(ot_rt, "order::Order::Order")
     ok = (ev.get("exchange") == "order.key.exchange" and ev.get("kind", "").startswith("AccountEventKind::OrderSnapshot{") and
           {k: of.get(k) for k in ("key", "side", "price", "quantity", "kind", "time_in_force")} ==
           {"key": "order.key", "side": "order.state.side", "price": "order.state.price", "quantity": "order.state.quantity",
@@ -271,9 +273,15 @@ def r4(ctx):
     arg = None
     if len(sites) == 1:
         arg = render(sites[0][2][-1])
-        oks = [render(t) for g, t in (common.at_call(ctx, sites[0]) or []) if render(t).startswith("Result::Ok")]
+        oks = [render(t) for g, t in (common.at_call(ctx, sites[0], norm=ev_norm) or []) if render(t).startswith("Result::Ok")]
     idx = "Try::branch(AccountEventIndexer::order_response_cancel(^self.indexer, %s)).as:Continue.0" % arg
-    ctx.check("ExecutionManager::process_cancel_response", len(sites) == 1 and oks == [
+    # the indexer's `order_response_cancel` written out at the call site (its own table is C04's): the key indexed by order_key,
+    # the state passed on (Ok) or its error indexed by order_error (Err), attributed to the indexed key's exchange
+    key_ = "Try::branch(AccountEventIndexer::order_key(^self.indexer, %s.key)).as:Continue.0" % arg
+    shape = "Result::Ok{0: Event::Item{0: AccountEvent::AccountEvent{exchange: %s.exchange, kind: AccountEventKind::OrderCancelled{0: OrderEvent::OrderEvent{key: %s, state: %%s}}}}}" % (key_, key_)
+    inlined_form = sorted(oks) == sorted([shape % ("Result::Ok{0: %s.state.as:Ok.0}" % arg),
+                                          shape % ("Result::Err{0: Try::branch(AccountEventIndexer::order_error(^self.indexer, %s.state.as:Err.0)).as:Continue.0}" % arg)])
+    ctx.check("ExecutionManager::process_cancel_response", len(sites) == 1 and inlined_form or len(sites) == 1 and oks == [
         "Result::Ok{0: Event::Item{0: AccountEvent::AccountEvent{exchange: %s.key.exchange, kind: AccountEventKind::OrderCancelled{0: %s}}}}" % (idx, idx)],
         "the client's cancel response is indexed and attributed to its own key's exchange", got=oks, key="event")
     # (again at the call site in `run`, with the response written `order` and the manager `self`, so that a helper taking
@@ -287,7 +295,7 @@ def r4(ctx):
         t = common.rename_term(t, oarg, ("param", 2, "order"))
         return common.rename_term(t, ("upvar", "self"), ("param", 1, "self"))
     ocases = [(frozenset(frozenset((a[0], named(a[1])) + tuple(a[2:]) for a in conj) for conj in g), named(t), None)
-              for g, t in (common.at_call(ctx, osites[0]) or [])]
+              for g, t in (common.at_call(ctx, osites[0], norm=ev_norm) or [])]
     cases = [c for c in ocases if render(c[1]).startswith("Result::Ok")]
     tab = {}
     for g, term, bi in cases:
